@@ -1,6 +1,7 @@
 """C40 -- Predicate formula parse trees are faithful (predicate_formula.parse_predicate_formula / TreeConverter)."""
 import ast
 import json
+import os
 import warnings
 
 from harness import core, predgen
@@ -19,7 +20,9 @@ RULE = ('formulas are generated as TEXT from a grammar over every supported node
         'cutting characters. Each text is parsed by CPython (oracle), the ast is mapped to the Coq type expr and the '
         'model is evaluated in Coq (vm_compute) against what parse_predicate_formula(_json) returned or raised. '
         'A case is non-trivial when the parser accepted the text and the converter visited >= 2 nodes.')
-TRUSTED = ['CPython parser (ast.parse, mode=eval) and tokenizer (COMMENT tokens): oracles; the harness maps their output '
+TRUSTED = ['pf2v translator (harness/pf2v.py): Python visitor methods -> Gallina in the monad of Model/PredVisit.v, '
+           'validated on every run by evaluating the generated code and the running function on the same formulas',
+           'CPython parser (ast.parse, mode=eval) and tokenizer (COMMENT tokens): oracles; the harness maps their output '
            'to the model types (harness/predgen.py coq_expr)',
            'codebuilder.get_dollar_replacer ($x -> rec.x): oracle, monitored by comparing the tree of every generated '
            'formula with the tree of the same formula spelled with rec.',
@@ -51,6 +54,39 @@ LEVEL_NOTE = ('Kernel strength: the CPython parser/tokenizer are oracles and the
 
 IMPORTS = ['Grist.Model.Predicate']
 warnings.filterwarnings('ignore', category=SyntaxWarning)
+
+
+GEN_IMPORTS = IMPORTS + ['Grist.Model.PredVisit', 'GristGen.Predicate_gen']
+# the generated TreeConverter (gen_visit None) against what the running parse_predicate_formula returned
+GEN_DEFS = '''
+Definition c40_gen_ok (c : c40_case) : bool :=
+  match cc_ast c with
+  | None => true
+  | Some e =>
+      wf_expr e &&
+      match gen_visit None e [], cc_parse c with
+      | GOk (v, []), Ok w =>
+          pyval_eqb (match first_comment (cc_comments c) with
+                     | Some cm => PList [pstr "Comment"; v; PLeaf (CStr (py_strip (tl cm)))]
+                     | None => v
+                     end) w
+      | GFail (GErr a), Err b => cerr_eqb a b
+      | _, _ => false
+      end
+  end.
+'''
+
+
+def regenerate(ctx):
+  """coq/gen/Predicate_gen.v from the visitor methods of the tree being checked (fail closed)."""
+  from harness import pf2v
+  try:
+    text = pf2v.translate(core.GRIST)
+  except pf2v.Untranslatable as e:
+    raise core.TieBroken('predicate_formula / collector methods are outside the translated subset: %s' % e)
+  core.write_if_changed(os.path.join(core.COQ, 'gen', 'Predicate_gen.v'), text)
+  ctx.extra['regenerated'] = ('coq/gen/Predicate_gen.v: %d definitions generated from predicate_formula.py, acl.py, '
+                              'dropdown_condition.py, trigger_expression.py' % text.count('\nDefinition '))
 
 
 # ---------------------------------------------------------------------------------------------
@@ -211,8 +247,20 @@ def correspond(ctx):
         eval_idx.append(i)
 
   ctx.log('cases: %d formulas, %d evaluation cases; running the model' % (len(coq), len(eval_cases)))
-  bad = ctx.run_cases('parse', IMPORTS, 'c40_case_ok', coq, shard=150)
-  ctx.log('parse cases evaluated: %d differ' % len(bad))
+  # one pass: hand model and generated code against the running function; a second pass over the failures tells which
+  both = ctx.run_cases('parse', GEN_IMPORTS, 'fun c => c40_case_ok c && c40_gen_ok c', coq, shard=150, extra_defs=GEN_DEFS)
+  bad, genbad = [], []
+  if both:
+    sub = [coq[k] for k in both]
+    bad = [both[j] for j in ctx.run_cases('parse_model', IMPORTS, 'c40_case_ok', sub, shard=150)]
+    genbad = [both[j] for j in ctx.run_cases('parse_gen', GEN_IMPORTS, 'c40_gen_ok', sub, shard=150, extra_defs=GEN_DEFS)]
+  ctx.log('parse cases evaluated: model differs on %d, generated code on %d' % (len(bad), len(genbad)))
+  ctx.extra['translator_validation'] = {'generated_vs_running_code_cases': sum(1 for k in idx if cs[k].body is not None),
+                                        'differ': len(genbad)}
+  for k in genbad[:5]:
+    c = cs[idx[k]]
+    ctx.broken('translation:generated TreeConverter (pf2v) differs from the running parse_predicate_formula',
+               'formula %r: implementation %r' % (c.text, c.impl))
   for k in bad[:5]:
     c = cs[idx[k]]
     ctx.broken('correspondence:Model.Predicate.parse_predicate differs from parse_predicate_formula',
